@@ -522,7 +522,7 @@ func expectedRecvOutcome(ps *PktState) (string, [][]byte) {
 	for i, bs := range ps.Behav {
 		b := parseBehav(bs)
 		switch b.kind {
-		case "ok":
+		case "ok", "blob":
 			if ps.V2 {
 				acks = append(acks, []byte(fmt.Sprintf("ack-%d.%d", ps.Tag, i)))
 			}
